@@ -210,8 +210,10 @@ class Builder(ABC):
             return traj
         finally:
             # Remove the context: this only exists during the simulation of a
-            # trajectory.
-            del self.ctx
+            # trajectory. (If creating the context failed, there is nothing to
+            # remove, and the original error must not be masked.)
+            if 'ctx' in self.__dict__:
+                del self.ctx
 
     def _iterate_mass(self) -> Trajectory:
         """Iterate on starting mass to minimize residual fuel mass."""
